@@ -48,12 +48,238 @@ def run(ck: Check, repo: Repo) -> None:
     ck.rule("C15.5", "maybe_add_batch_dim distinguishes rank, rank + 1 and rank + 2 and rejects everything else")
     ck.rule("C15.6", "agent wrappers preprocess each agent's observation with that agent's own space; the centralised critic input concatenates "
                      "vector features on the feature axis and stacks images on a new axis 2, in every branch")
+    ck.rule("C15.7", "container recursion passes everything through: each recursive preprocess_observation call for a Dict / Tuple member receives that member "
+                     "together with the sub-space found under the same key / at the same position, and the caller's own `device` and `normalize_images`")
+    ck.rule("C15.8", "preparation is pure: no in-place tensor operation, augmented assignment or element store is applied to the observation handed in "
+                     "(obs_to_tensor does not copy float32 input, so the caller's array would change and a second preparation would differ)")
+    ck.rule("C15.9", "agents are visited in the algorithm's own order (self.agent_ids), never in the iteration order of the caller's dictionary, wherever "
+                     "per-agent tensors are paired with per-agent networks by position or stacked for a shared policy and handed back by position")
+    ck.rule("C15.10", "the shape passed to maybe_add_batch_dim describes the tensor at that point: before one-hot encoding the raw space shape, not the encoded width")
+    _recursion(ck, repo)
+    _purity(ck, repo)
+    _agent_order(ck, repo)
+    _pre_encoding_shape(ck, repo)
     _dispatch(ck, repo)
     _rank_lint(ck, repo)
     _one_hot(ck, repo)
     _image(ck, repo)
     _batch_dim(ck, repo)
     _agents(ck, repo)
+
+
+# ------------------------------------------------------------------------------------------------ C15.7
+def _bind_call(fn: Fn, c: ast.Call) -> Dict[str, ast.AST]:
+    names = fn.named_params
+    out: Dict[str, ast.AST] = {}
+    for i, a in enumerate(c.args):
+        if i < len(names) and not isinstance(a, ast.Starred):
+            out[names[i]] = a
+    for k in c.keywords:
+        if k.arg:
+            out[k.arg] = k.value
+    return out
+
+
+def _binders(root: ast.AST, call: ast.Call) -> List[Tuple[ast.AST, ast.AST]]:
+    """(target, iter) of every for-loop / comprehension clause that encloses `call`."""
+    out = []
+    for n in ast.walk(root):
+        if isinstance(n, ast.For) and any(x is call for x in ast.walk(n)):
+            out.append((n.target, n.iter))
+        elif isinstance(n, (ast.ListComp, ast.SetComp, ast.GeneratorExp, ast.DictComp)) and any(x is call for x in ast.walk(n)):
+            for g in n.generators:
+                out.append((g.target, g.iter))
+    return out
+
+
+def _recursion(ck: Check, repo: Repo) -> None:
+    po = repo.fn(AU, "preprocess_observation")
+    cfg = CFG(po.node)
+    rec = [c for c in calls_in(po.node, nested=True) if call_name(c) == "preprocess_observation"]
+    ck.floor("C15.7", len(rec), 2, "recursive calls for Dict / Tuple members", fn=po)
+    for c in rec:
+        b = _bind_call(po, c)
+        for prm in ("device", "normalize_images"):
+            ck.ob("C15.7", po, c, prm in b and dotted(b[prm]) == prm, f"the member is prepared with the caller's own `{prm}`",
+                  detail=f"`{prm}` is {'passed as ' + short(b[prm], 40) if prm in b else 'not passed: the member falls back to the default of the signature'}",
+                  construct=f"preprocess_observation recursion: {prm} ({short(c, 50)})")
+        obs_e, sp_e = b.get("observation"), b.get("observation_space")
+        binders = _binders(po.node, c)
+        ok = False
+        why = f"observation={short(obs_e, 40) if obs_e is not None else None}, observation_space={short(sp_e, 40) if sp_e is not None else None}"
+        if obs_e is not None and sp_e is not None:
+            for tgt, it in binders:
+                its = ast.unparse(it)
+                if isinstance(tgt, ast.Tuple) and len(tgt.elts) == 2 and all(isinstance(e, ast.Name) for e in tgt.elts):
+                    k, v = tgt.elts[0].id, tgt.elts[1].id
+                    # for K, O in observation.items(): member O with space observation_space[K]
+                    if its == "observation.items()" and dotted(obs_e) == v and ast.unparse(sp_e) in (f"observation_space[{k}]", f"observation_space.spaces[{k}]"):
+                        ok = True
+                    # for O, S in zip(observation, observation_space.spaces)
+                    if its in ("zip(observation, observation_space.spaces)", "zip(observation, observation_space)") and dotted(obs_e) == k and dotted(sp_e) == v:
+                        ok = True
+                    # for I, O in enumerate(observation)
+                    if its == "enumerate(observation)" and dotted(obs_e) == v and ast.unparse(sp_e) in (f"observation_space[{k}]", f"observation_space.spaces[{k}]"):
+                        ok = True
+                elif isinstance(tgt, ast.Name):
+                    k = tgt.id
+                    if ast.unparse(obs_e) == f"observation[{k}]" and ast.unparse(sp_e) in (f"observation_space[{k}]", f"observation_space.spaces[{k}]"):
+                        ok = True
+        ck.ob("C15.7", po, c, ok, "the member and its sub-space are taken under the same key / at the same position", detail=why,
+              construct=f"preprocess_observation recursion: member/space pairing ({short(c, 50)})")
+
+
+# ------------------------------------------------------------------------------------------------ C15.8
+_PURE_FNS = ["preprocess_observation", "apply_image_normalization", "maybe_add_batch_dim", "obs_to_tensor"]
+
+
+def _purity(ck: Check, repo: Repo) -> None:
+    n = 0
+    for q in _PURE_FNS:
+        fn = repo.fn(AU, q)
+        first = fn.named_params[0]
+        cfg = CFG(fn.node)
+        # names that may alias the observation handed in: the first parameter and every local assigned from an expression that is (a view of) it
+        bad = []
+        for x in walk_no_nested(fn.node):
+            recv = None
+            how = ""
+            if isinstance(x, ast.Call) and isinstance(x.func, ast.Attribute) and x.func.attr.endswith("_") and not x.func.attr.startswith("_"):
+                recv, how = x.func.value, f".{x.func.attr}()"
+            elif isinstance(x, ast.AugAssign):
+                recv, how = x.target, "augmented assignment"
+            elif isinstance(x, ast.Assign) and isinstance(x.targets[0], ast.Subscript):
+                recv, how = x.targets[0].value, "element store"
+            elif isinstance(x, ast.Call) and get_kw(x, "out") is not None:
+                recv, how = get_kw(x, "out"), "out= argument"
+            if recv is None:
+                continue
+            base = recv
+            while isinstance(base, (ast.Subscript, ast.Attribute, ast.Call)):
+                base = base.value if not isinstance(base, ast.Call) else base.func
+            if isinstance(base, ast.Name) and _may_be_input(cfg, fn, base.id, cfg.node_of(x), first):
+                bad.append((x, how))
+        n += 1
+        for x, how in bad or [(None, "")]:
+            ck.ob("C15.8", fn, x if x is not None else fn.node, x is None, f"{q}: the observation handed in is not modified in place",
+                  detail=f"{how} on a value that may still be the caller's own tensor / array (obs_to_tensor shares memory with float32 input): preparing the same "
+                         "observation twice, or reusing it afterwards (replay buffer), sees the already transformed data",
+                  construct=f"{q}: in-place {how} {short(x, 50) if x is not None else ''}".strip())
+    ck.floor("C15.8", n, 4, "functions on the preparation path examined for in-place writes")
+
+
+def _may_be_input(cfg: CFG, fn: Fn, name: str, at: Optional[Node], first: str, depth: int = 0) -> bool:
+    """May `name` at `at` still denote (a view of / the same storage as) the first parameter?  Fresh results of arithmetic, F.one_hot, torch.cat, .float()
+    on a non-float ... are treated as possibly shared only when they are the parameter itself, a subscript / attribute view of it, or the result of the
+    repository's own non-copying helpers."""
+    if depth > 6 or at is None:
+        return name == first
+    defs = cfg.defs_reaching(at, name)
+    if not defs:
+        return name == first
+    for d in defs:
+        v = cfg.value_of_def(d, name)
+        if v is None:
+            # parameter entry definition or an opaque one
+            if name == first:
+                return True
+            continue
+        if _aliases(cfg, fn, v, d, first, depth):
+            return True
+    return False
+
+
+_NON_COPYING = {"obs_to_tensor", "maybe_add_batch_dim", "torch.as_tensor", "torch.from_numpy", "np.asarray", "apply_image_normalization"}
+_VIEW_METHODS = {"float", "view", "reshape", "squeeze", "unsqueeze", "to", "contiguous", "detach", "T", "transpose", "permute", "expand"}
+
+
+def _aliases(cfg: CFG, fn: Fn, v: ast.AST, at: Node, first: str, depth: int) -> bool:
+    if isinstance(v, ast.Name):
+        return _may_be_input(cfg, fn, v.id, at, first, depth + 1)
+    if isinstance(v, (ast.Subscript, ast.Attribute)):
+        return _aliases(cfg, fn, v.value, at, first, depth)
+    if isinstance(v, ast.IfExp):
+        return _aliases(cfg, fn, v.body, at, first, depth) or _aliases(cfg, fn, v.orelse, at, first, depth)
+    if isinstance(v, ast.Call):
+        nm = call_name(v)
+        if nm in _NON_COPYING and v.args:
+            return _aliases(cfg, fn, v.args[0], at, first, depth)
+        if isinstance(v.func, ast.Attribute) and v.func.attr in _VIEW_METHODS:
+            return _aliases(cfg, fn, v.func.value, at, first, depth)
+    return False
+
+
+# ------------------------------------------------------------------------------------------------ C15.9
+def _agent_order(ck: Check, repo: Repo) -> None:
+    n = 0
+    # (1) positional pairing with per-agent networks: zip(self.agent_ids, X, self.actors)
+    for modname, q in (("agilerl.algorithms.maddpg", "MADDPG.get_action"), ("agilerl.algorithms.matd3", "MATD3.get_action")):
+        fn = repo.fn(modname, q)
+        cfg = CFG(fn.node)
+        zips = [c for c in calls_in(fn.node) if call_name(c) == "zip" and any(dotted(a) == "self.actors" for a in c.args)]
+        for z in zips:
+            node = cfg.node_of(z)
+            for a in z.args:
+                if dotted(a).startswith("self."):
+                    continue
+                vals = [a]
+                if isinstance(a, ast.Name) and node is not None:
+                    vals = [cfg.value_of_def(d, a.id) for d in cfg.defs_reaching(node, a.id)]
+                for v in vals:
+                    n += 1
+                    ok = isinstance(v, ast.ListComp) and len(v.generators) == 1 and dotted(v.generators[0].iter) == "self.agent_ids" \
+                        and isinstance(v.elt, ast.Subscript) and dotted(v.elt.slice) == dotted(v.generators[0].target)
+                    ck.ob("C15.9", fn, v if v is not None else z, ok, f"{q}: the per-agent observations paired with self.actors are looked up by agent id in self.agent_ids order",
+                          detail=f"built by `{short(v, 70) if v is not None else '?'}`: the k-th actor receives the k-th value of the caller's dictionary, i.e. another "
+                                 "agent's observation when the dictionary lists the agents in a different order",
+                          construct=f"{q}: observations zipped with self.actors <- {short(v, 60) if v is not None else '?'}")
+    # (2) stacking for a shared policy: appends to the per-group lists happen in a loop over self.agent_ids
+    ip = "agilerl.algorithms.ippo"
+    for q in ("IPPO.preprocess_observation", "IPPO.extract_action_masks"):
+        fn = repo.fn(ip, q)
+        for lp in [x for x in walk_no_nested(fn.node) if isinstance(x, ast.For)]:
+            apps = [c for c in calls_in(lp, nested=True) if last_attr(c) == "append" and isinstance(c.func.value, ast.Subscript)]
+            if not apps:
+                continue
+            n += 1
+            it = lp.iter
+            ok = dotted(it) == "self.agent_ids" or (isinstance(it, (ast.ListComp, ast.GeneratorExp)) and dotted(it.generators[0].iter) == "self.agent_ids")
+            ck.ob("C15.9", fn, lp, ok, f"{q}: the agents of a shared-policy group are stacked in self.agent_ids order (the order in which their outputs are handed back)",
+                  detail=f"the stacking loop runs over `{short(it, 50)}`: rows are handed back by position in self.agent_ids order, so with another order an agent "
+                         "receives the action / value computed from a different agent's observation",
+                  construct=f"{q}: stacking loop over {short(it, 50)}")
+    ck.floor("C15.9", n, 4, "places where per-agent tensors are ordered")
+
+
+# ------------------------------------------------------------------------------------------------ C15.10
+def _pre_encoding_shape(ck: Check, repo: Repo) -> None:
+    po = repo.fn(AU, "preprocess_observation")
+    cfg = CFG(po.node)
+    n = 0
+    ohs = [cfg.node_of(c) for c in calls_in(po.node, nested=True) if call_name(c) == "F.one_hot"]
+    for c in calls_in(po.node):
+        if call_name(c) != "maybe_add_batch_dim" or len(c.args) < 2:
+            continue
+        node = cfg.node_of(c)
+        if node is None:
+            continue
+        # does an encoding happen after this call on the same path?
+        later = [o for o in ohs if o is not None and o.id != node.id and o.id in cfg.reachable_from(node)]
+        if not later:
+            continue
+        n += 1
+        sh = c.args[1]
+        vals = [sh]
+        if isinstance(sh, ast.Name):
+            vals = [cfg.value_of_def(d, sh.id) for d in cfg.defs_reaching(node, sh.id)]
+        for v in vals:
+            src = ast.unparse(v) if v is not None else "?"
+            ok = v is not None and "sum(" not in src and ("observation_space.shape" in src or "len(observation_space.nvec)" in src)
+            ck.ob("C15.10", po, c, ok, "the batch axis is added to the raw MultiDiscrete observation using the raw shape of the space",
+                  detail=f"shape = {src}: the tensor still has len(nvec) columns here; with the encoded width a (step, env, len(nvec)) input is reshaped with "
+                         "view(-1, sum(nvec)), which fails or silently mixes rows",
+                  construct="preprocess_observation: maybe_add_batch_dim before one-hot encoding")
+    ck.floor("C15.10", n, 1, "maybe_add_batch_dim call preceding an encoding", fn=po)
 
 
 def _dispatch(ck: Check, repo: Repo) -> None:
@@ -77,22 +303,20 @@ def _dispatch(ck: Check, repo: Repo) -> None:
                 ck.ob("C15.1", fn, kinds.get(k).test if k in kinds else fn.node, k in kinds, f"{fn.qualname}: handles {k} spaces member by member", construct=f"{fn.qualname}: kind {k}")
         if must_raise:
             ck.ob("C15.1", fn, fn.node, _raises(last_else), f"{fn.qualname}: an unsupported space kind is rejected with an error", construct=f"{fn.qualname}: final else")
-    # containers recurse with the member's own space
     po = repo.fn(AU, "preprocess_observation")
     src = ast.unparse(po.node)
-    ck.ob("C15.1", po, po.node, has_kw(src, 'observation_space', '$observation_space[$key]') and has(src, 'for $key, $_obs in $observation.items():\n    ...'), "Dict members are prepared with the sub-space of the same key",
-          construct="preprocess_observation Dict recursion")
-    ck.ob("C15.1", po, po.node, has(src, 'for $_obs, $_space in zip($observation, $observation_space.spaces):\n    ...') and has(src, 'preprocess_observation($_obs, $_space, $device, $normalize_images)'),
-          "Tuple members are prepared with the sub-space at the same position", construct="preprocess_observation Tuple recursion")
     # every leaf path ends in maybe_add_batch_dim with that kind's shape
     cfg = CFG(po.node)
     rets = [n for n in cfg.live_nodes() if n.kind == "stmt" and isinstance(n.ast, ast.Return) and dotted(n.ast.value) == "observation"]
-    mb = [cfg.node_of(c) for c in calls_in(po.node) if call_name(c) == "maybe_add_batch_dim" and dotted(c.args[1]) == "space_shape"]
+    # the local holding the leaf kind's network input shape = second argument of the maybe_add_batch_dim(observation, <shape>) call
+    mbc = [c for c in calls_in(po.node) if call_name(c) == "maybe_add_batch_dim" and len(c.args) >= 2 and dotted(c.args[0]) == "observation" and isinstance(c.args[1], ast.Name)]
+    shape_var = mbc[0].args[1].id if mbc else "?"
+    mb = [cfg.node_of(c) for c in mbc if c.args[1].id == shape_var]
     ck.ob("C15.1", po, rets[0].ast if rets else po.node, bool(rets) and bool(mb) and any(m is not None and cfg.dominates(m, rets[0]) for m in mb),
           "every leaf kind receives its batch dimension before the tensor is returned")
     shapes = {}
     for n in cfg.live_nodes():
-        if n.kind == "stmt" and isinstance(n.ast, ast.Assign) and dotted(n.ast.targets[0]) == "space_shape":
+        if n.kind == "stmt" and isinstance(n.ast, ast.Assign) and dotted(n.ast.targets[0]) == shape_var:
             g = [ast.unparse(gg) for gg, pol, _ in cfg.guards_at(n) if pol and "isinstance(observation_space" in ast.unparse(gg)]
             kind = g[-1].split("spaces.")[-1].rstrip(")") if g else "?"
             shapes[kind] = ast.unparse(n.ast.value)
@@ -146,11 +370,13 @@ def _one_hot(ck: Check, repo: Repo) -> None:
         else:
             # inside the MultiDiscrete comprehension: nvec[idx] with idx the enumerate counter of the split
             comp = [x for x in ast.walk(po.node) if isinstance(x, ast.ListComp) and any(y is c for y in ast.walk(x))]
-            ok = s == "int(observation_space.nvec[idx])" and bool(comp)
+            ok = bool(comp)
             if ok:
                 g0 = comp[0].generators[0]
+                # the counter of enumerate(torch.split(observation.long(), 1, dim=1)) indexes nvec, its element is what is encoded
                 ok = isinstance(g0.iter, ast.Call) and call_name(g0.iter) == "enumerate" and "torch.split(observation.long(), 1, dim=1)" in ast.unparse(g0.iter) \
-                    and isinstance(g0.target, ast.Tuple) and dotted(g0.target.elts[0]) == "idx" and dotted(c.args[0].func.value) == dotted(g0.target.elts[1])
+                    and isinstance(g0.target, ast.Tuple) and isinstance(g0.target.elts[0], ast.Name) and s == f"int(observation_space.nvec[{g0.target.elts[0].id}])" \
+                    and dotted(c.args[0].func.value) == dotted(g0.target.elts[1])
             ck.ob("C15.3", po, c, ok, "MultiDiscrete component idx is encoded with width nvec[idx] of the same component", detail=s)
         ck.ob("C15.3", po, c, isinstance(c.args[0], ast.Call) and last_attr(c.args[0]) == "long", "the encoded value is converted to an integer index")
     src = ast.unparse(po.node)
@@ -161,18 +387,33 @@ def _image(ck: Check, repo: Repo) -> None:
     fn = repo.fn(AU, "apply_image_normalization")
     cfg = CFG(fn.node)
     tb = TermBuilder(repo, fn, cfg=cfg, depth=0)
-    rets = [n for n in cfg.live_nodes() if n.kind == "stmt" and isinstance(n.ast, ast.Return) and isinstance(n.ast.value, ast.BinOp)]
+    # the returned value, looked through one single-definition temporary
+    def _ret_value(n: Node) -> Optional[ast.AST]:
+        v = n.ast.value
+        if isinstance(v, ast.Name):
+            ds = cfg.defs_reaching(n, v.id)
+            vs = [cfg.value_of_def(d, v.id) for d in ds]
+            if len(vs) == 1 and vs[0] is not None:
+                return vs[0]
+        return v
+
+    rets = [n for n in cfg.live_nodes() if n.kind == "stmt" and isinstance(n.ast, ast.Return) and isinstance(_ret_value(n), ast.BinOp)]
     ck.floor("C15.4", len(rets), 1, "scaling return in apply_image_normalization", fn=fn)
     for r in rets:
-        v = r.ast.value
+        v = _ret_value(r)
         ok = isinstance(v.op, ast.Div) and isinstance(v.left, ast.BinOp) and isinstance(v.left.op, ast.Sub) and isinstance(v.right, ast.BinOp) and isinstance(v.right.op, ast.Sub)
+        lo = hi = "?"
         if ok:
-            ok = dotted(v.left.left) == "observation" and dotted(v.left.right) == "low" and dotted(v.right.left) == "high" and dotted(v.right.right) == "low"
+            # roles: (observation - LO) / (HI - LO) with LO, HI two different locals
+            ok = dotted(v.left.left) == "observation" and isinstance(v.left.right, ast.Name) and isinstance(v.right.left, ast.Name) \
+                and dotted(v.right.right) == v.left.right.id and v.right.left.id != v.left.right.id
+            if ok:
+                lo, hi = v.left.right.id, v.right.left.id
         ck.ob("C15.4", fn, r.ast, ok, "the scaled value is (observation - low) / (high - low)", detail=short(v, 80))
-        for nm, attr in (("low", "low"), ("high", "high")):
+        for nm, attr in ((lo, "low"), (hi, "high")):
             defs = cfg.defs_reaching(r, nm)
             vals = [ast.unparse(cfg.value_of_def(d, nm)) for d in defs if cfg.value_of_def(d, nm) is not None]
-            ck.ob("C15.4", fn, r.ast, bool(vals) and all(f"observation_space.{attr}" in x for x in vals), f"`{nm}` is the space's {attr} bound", detail=str(vals)[:120])
+            ck.ob("C15.4", fn, r.ast, bool(vals) and all(f"observation_space.{attr}" in x for x in vals), f"`{attr}` is the space's {attr} bound", detail=str(vals)[:120])
     po = repo.fn(AU, "preprocess_observation")
     pcfg = CFG(po.node)
     calls = [c for c in calls_in(po.node) if call_name(c) == "apply_image_normalization"]
@@ -227,12 +468,17 @@ def _agents(ck: Check, repo: Repo) -> None:
         ok = len(calls) == 1
         if ok:
             c = calls[0]
+            if "MultiAgent" in q:
+                # the space is looked up with the loop's own key variable (for <key>, <obs> in observation.items())
+                lp = [n for n in walk_no_nested(fn.node) if isinstance(n, ast.For) and isinstance(n.target, ast.Tuple) and isinstance(n.target.elts[0], ast.Name)]
+                space_expr = f"self.observation_space.get({lp[0].target.elts[0].id})" if lp else space_expr
             ok = ast.unparse(get_kw(c, "observation_space", 1)) == space_expr and dotted(get_kw(c, "device", 2)) == "self.device" and dotted(get_kw(c, "normalize_images", 3)) == "self.normalize_images"
         ck.ob("C15.6", fn, calls[0] if calls else fn.node, ok, f"{q}: delegates to the shared preprocessing with the agent's own space, device and normalisation flag")
         if "MultiAgent" in q and ok:
             loops = [n for n in walk_no_nested(fn.node) if isinstance(n, ast.For)]
             okl = len(loops) == 1 and ast.unparse(loops[0].iter) == "observation.items()" and dotted(get_kw(calls[0], "observation", 0)) == dotted(loops[0].target.elts[1]) \
-                and f"preprocessed[{dotted(loops[0].target.elts[0])}]" in ast.unparse(loops[0])
+                and any(isinstance(st, ast.Assign) and isinstance(st.targets[0], ast.Subscript) and isinstance(st.targets[0].value, ast.Name)
+                        and dotted(st.targets[0].slice) == dotted(loops[0].target.elts[0]) and any(x is calls[0] for x in ast.walk(st.value)) for st in ast.walk(loops[0]))
             ck.ob("C15.6", fn, loops[0] if loops else fn.node, okl, f"{q}: every agent's observation is prepared on its own and stored under that agent's id")
     ip = repo.fn("agilerl.algorithms.ippo", "IPPO.preprocess_observation")
     src = ast.unparse(ip.node)
@@ -262,7 +508,18 @@ def _agents(ck: Check, repo: Repo) -> None:
 
 _AUF = "agilerl/utils/algo_utils.py"
 _BF = "agilerl/algorithms/core/base.py"
+_IP = "agilerl/algorithms/ippo.py"
+_MAF = "agilerl/algorithms/maddpg.py"
 VARIANTS = [
+    ("dict-member-loses-normalize-flag", _AUF, "                observation_space=observation_space[key],\n                device=device,\n                normalize_images=normalize_images,\n", "                observation_space=observation_space[key],\n                device=device,\n", "fire", "C15.7"),
+    ("dict-recursion-as-comprehension-ok", _AUF, "        preprocessed_obs = {}\n        for key, _obs in observation.items():\n            preprocessed_obs[key] = preprocess_observation(\n                observation=_obs,\n                observation_space=observation_space[key],\n                device=device,\n                normalize_images=normalize_images,\n            )\n\n        return preprocessed_obs\n",
+     "        return {\n            key: preprocess_observation(_obs, observation_space[key], device, normalize_images)\n            for key, _obs in observation.items()\n        }\n", "silent", None),
+    ("image-normalisation-in-place", _AUF, "    return (observation - low) / (high - low)", "    return observation.sub_(low).div_(high - low)", "fire", "C15.8"),
+    ("batch-dim-in-place-ok-on-fresh", _AUF, "    return (observation - low) / (high - low)", "    scaled = (observation - low) / (high - low)\n    scaled.mul_(1.0)\n    return scaled", "silent", None),
+    ("maddpg-observations-by-dict-order", _MAF, "        preprocessed_states = [preprocessed[agent_id] for agent_id in self.agent_ids]\n", "        preprocessed_states = list(preprocessed.values())\n", "fire", "C15.9"),
+    ("ippo-stack-in-dict-order", _IP, "        for agent_id in self.agent_ids:\n            if agent_id not in observation:\n                continue\n", "        for agent_id in observation:\n", "fire", "C15.9"),
+    ("ippo-stack-sorted", _IP, "        for agent_id in self.agent_ids:\n            if agent_id not in observation:\n                continue\n", "        for agent_id in sorted(observation):\n", "fire", "C15.9"),
+    ("ippo-stack-filtered-comprehension-ok", _IP, "        for agent_id in self.agent_ids:\n            if agent_id not in observation:\n                continue\n", "        for agent_id in [a for a in self.agent_ids if a in observation]:\n", "silent", None),
     ("multibinary-dropped", _AUF, "    elif isinstance(observation_space, spaces.MultiBinary):\n        observation = observation.float()\n        space_shape = (observation_space.n,)\n", "", "fire", "C15.1"),
     ("rank-vs-shape", _AUF, "            if len(observation.shape) > len(observation_space.shape)\n            else 1\n        )\n    else:", "            if len(observation.shape) > observation_space.shape\n            else 1\n        )\n    else:", "fire", "C15.2"),
     ("onehot-width-max", _AUF, "observation.long(), num_classes=int(observation_space.n)", "observation.long(), num_classes=int(observation.max()) + 1", "fire", "C15.3"),
@@ -272,7 +529,7 @@ VARIANTS = [
     ("image-norm-flag-ignored", _AUF, "        if len(observation_space.shape) == 3 and normalize_images:", "        if len(observation_space.shape) == 3:", "fire", "C15.4"),
     ("batchdim-plus-two-off", _AUF, "    elif len(obs.shape) == len(space_shape) + 2:", "    elif len(obs.shape) >= len(space_shape) + 2:", "fire", "C15.5"),
     ("batchdim-no-reject", _AUF, "    elif len(obs.shape) != len(space_shape) + 1:\n        raise ValueError(\n            f\"Expected observation to have {len(space_shape) + 1} dimensions, got {len(obs.shape)}.\"\n        )\n", "", "fire", "C15.5"),
-    ("dict-wrong-subspace", _AUF, "                observation_space=observation_space[key],\n", "                observation_space=observation_space,\n", "fire", "C15.1"),
+    ("dict-wrong-subspace", _AUF, "                observation_space=observation_space[key],\n", "                observation_space=observation_space,\n", "fire", "C15.7"),
     ("discrete-shape-one", _AUF, "        space_shape = (observation_space.n,)\n\n    elif isinstance(observation_space, spaces.MultiDiscrete):", "        space_shape = (1,)\n\n    elif isinstance(observation_space, spaces.MultiDiscrete):", "fire", "C15.1"),
     ("agents-shared-space", _BF, "                observation_space=self.observation_space.get(agent_id),\n                device=self.device,\n                normalize_images=self.normalize_images,\n            )\n\n        return preprocessed\n\n    def extract_action_masks",
      "                observation_space=self.single_space,\n                device=self.device,\n                normalize_images=self.normalize_images,\n            )\n\n        return preprocessed\n\n    def extract_action_masks", "fire", "C15.6"),
